@@ -1,9 +1,11 @@
 #!/usr/bin/env python3
-"""tools/seed_matrix.py [--jobs N] [--tier quick] [--only C01,C03-2,...]
+"""tools/seed_matrix.py [--benign] [--jobs N] [--tier quick] [--only C01,C03-2,...]
 Regression suite of the checks themselves: every confirmed independent change under seeded/<ID>-<n>/ is applied to a scratch
 worktree of /repo HEAD (never /repo itself), the property's check is run against the worktree, and the exit code and the
 violation keys are written to seeded/MATRIX.json.  A seed that is no longer caught is printed as `MISSED`; the tool
-exits 1 if any seed that meta.json marks as caught is missed.  Scratch worktrees are removed as soon as each run ends."""
+exits 1 if any seed that meta.json marks as caught is missed.  Scratch worktrees are removed as soon as each run ends.
+With --benign the same is done for benign/<ID>-<n>/ (independent changes that alter internals but keep the property):
+there the check must exit 0; an alarm is printed as `FALSE-ALARM`; results go to benign/MATRIX.json."""
 import concurrent.futures
 import json
 import os
@@ -17,11 +19,13 @@ args = sys.argv[1:]
 jobs = int(args[args.index('--jobs') + 1]) if '--jobs' in args else 4
 tier = args[args.index('--tier') + 1] if '--tier' in args else 'quick'
 only = args[args.index('--only') + 1].split(',') if '--only' in args else None
+BENIGN = '--benign' in args
+KIND = 'benign' if BENIGN else 'seeded'
 
 
 def one(seed):
     prop = seed.split('-')[0]
-    patch = os.path.join(ROOT, 'seeded', seed, 'patch.diff')
+    patch = os.path.join(ROOT, KIND, seed, 'patch.diff')
     wt = tempfile.mkdtemp(prefix=f'wt-mx-{seed}-')
     os.rmdir(wt)
     subprocess.run(['git', '-C', '/repo', 'worktree', 'add', '--detach', wt, 'HEAD'], check=True, capture_output=True)
@@ -43,22 +47,25 @@ def one(seed):
 
 
 def main():
-    seeds = sorted(d for d in os.listdir(os.path.join(ROOT, 'seeded'))
-                   if re.fullmatch(r'C\d\d-\d+', d) and os.path.exists(os.path.join(ROOT, 'seeded', d, 'patch.diff')))
+    seeds = sorted(d for d in os.listdir(os.path.join(ROOT, KIND))
+                   if re.fullmatch(r'C\d\d-\d+', d) and os.path.exists(os.path.join(ROOT, KIND, d, 'patch.diff')))
     if only:
         seeds = [s for s in seeds if s in only or s.split('-')[0] in only]
-    path = os.path.join(ROOT, 'seeded', 'MATRIX.json')
+    path = os.path.join(ROOT, KIND, 'MATRIX.json')
     matrix = json.load(open(path)) if os.path.exists(path) else {}
     bad = 0
     with concurrent.futures.ThreadPoolExecutor(jobs) as ex:
         for seed, out in ex.map(one, seeds):
-            meta = json.load(open(os.path.join(ROOT, 'seeded', seed, 'meta.json')))
-            expected = meta.get('expected', 'caught')
-            verdict = 'caught' if out['exit'] == 1 else 'MISSED' if out['exit'] == 0 else 'MACHINERY'
+            meta = json.load(open(os.path.join(ROOT, KIND, seed, 'meta.json')))
+            expected = meta.get('expected', 'quiet' if BENIGN else 'caught')
+            if BENIGN:
+                verdict = 'quiet' if out['exit'] == 0 else 'FALSE-ALARM' if out['exit'] == 1 else 'MACHINERY'
+            else:
+                verdict = 'caught' if out['exit'] == 1 else 'MISSED' if out['exit'] == 0 else 'MACHINERY'
             out['verdict'], out['tier'] = verdict, tier
             matrix[seed] = out
             print(f'{seed}: {verdict} (expected {expected}) {sorted(out.get("keys", {}))[:4]}', flush=True)
-            if verdict != 'caught' and expected == 'caught':
+            if verdict != expected and expected in ('caught', 'quiet'):
                 bad += 1
     json.dump(matrix, open(path, 'w'), indent=1, sort_keys=True)
     sys.exit(1 if bad else 0)
